@@ -120,7 +120,7 @@ def check_slot_returned(ctx, R, classes):
     field back from update() on every normal path, otherwise producers never wait for the emission"""
     for cls in classes:
         slots = {}
-        for mname, fn in cls.methods.items():
+        for mname, fn in ctx.entry_methods(cls):
             if mname in ('__init__', 'update'):
                 continue
             for st, status in ctx.paths(fn, cls):
@@ -487,7 +487,7 @@ def check_meta_pass(ctx, R, classes, rule='META-PASS'):
 def check_meta_flat(ctx, R, classes, rule='META-FLAT'):
     und = 0
     for cls in classes:
-        for mname, fn in cls.methods.items():
+        for mname, fn in ctx.entry_methods(cls):
             if mname == '__init__':
                 continue
             con = ctx.construct(fn)
